@@ -509,7 +509,8 @@ def run_history(ctx, tag, src, history, params, cases, meta, expect_hier=None, f
       obs = coq_list([coq_list([f'"{x}"' for x in r]) for r in sorted(rows)])
       return f'({coq_hier(H)}, {coq_list([f"({coq_name(c)}, {coq_hier(h)})" for c, h in rs])}, {obs}, {both})'
     cases.append(case(rows_s, 'true')); meta.append((tag, replay, 'direct-build'))
-    if rows_r != rows_s:
+    if rows_r != rows_s and sum(1 for m in meta if m[2] == 'replaced') < (12 if ctx.tier == 'quick' else 100):
+      # (the Python diff above is what decides; the model is asked to confirm a bounded number of divergent cases)
       cases.append(case(rows_r, 'false')); meta.append((tag, replay, 'replaced'))
   ctx.count((tag, tuple(map(tuple, history))), True, cls=f'replacements:{len(history)}')
   for (slot, mode, cname, k) in history:
